@@ -25,7 +25,7 @@ ALPHA_T = Alphabet(
 
 
 def cfg(tier):
-    return (ALPHA, 3) if tier == "quick" else (ALPHA_T, 4)
+    return (ALPHA, 3) if tier == "quick" else (ALPHA_T, 3)
 
 
 def params(tier):
@@ -33,7 +33,7 @@ def params(tier):
     return [P(f"o{i}", 0, max_options(alpha) - 1) for i in range(K)]
 
 
-def make(prop, classes, name="R"):
+def make(prop, classes, name="R", cfg=cfg):
     @guard
     def fn(a, tier):
         alpha, K = cfg(tier)
@@ -62,7 +62,7 @@ R = Harness(
         "entered only after the next operation -, a task temporarily entering and leaving a Context with an explicit other parent, add_resource(T0 | T0+T1), "
         "add_resource_factory(T0 | T0+T1, sync), lookup(T0|T1 via nowait/await/inject) -- then generating probes of every key in every context"
         if tier == "quick"
-        else "histories of 4 operations over <=3 contexts, 2 names, 2 types; ops: create_child(p), add_resource(T0/a | T0+T1/a | T0/b), "
+        else "histories of 3 operations over <=3 contexts, 2 names, 2 types; ops: create_child(p), add_resource(T0/a | T0+T1/a | T0/b), "
         "add_resource_factory(T0 sync | T0+T1 async), lookup via nowait/await/inject_async/shortcut -- then generating probes"
     ),
     oracle="after every step, for every live context, get_resources()/shortcut == model's visible set (child = snapshot of the parent's static "
@@ -72,7 +72,21 @@ R = Harness(
     stubs=STUBS_COMMON,
 )
 
-HARNESSES = [R]
+R4 = Harness(
+    prop="C02",
+    name="R4",
+    fn=make("C02", None, cfg=lambda tier: (ALPHA, 4)),
+    params=lambda tier: [P(f"o{i}", 0, max_options(ALPHA) - 1) for i in range(4)],
+    cube=lambda tier: 2,
+    tiers=("thorough",),
+    title="R-history of FOUR operations (the quick alphabet)",
+    bound_text=lambda tier: "histories of 4 operations over <=3 contexts with the quick tier's alphabet (incl. deferred entering and visits), then generating probes",
+    oracle=R.oracle,
+    outside=R.outside,
+    stubs=STUBS_COMMON,
+)
+
+HARNESSES = [R, R4]
 
 
 # ------------------------------------------------------------------------------ K-comp
